@@ -247,6 +247,170 @@ def _inline_private_writers(tree: ast.AST, class_name: str, attrs) -> None:
         visit(m, m, 0)
 
 
+def _inline_setting_readers(trees) -> None:
+    """Accessor normal form.  A *setting reader* is a private method or property (name `_x`, defined once in the package, no decorator other
+    than `@property`) whose body is `return self.<attr>[KEY]` / `return self.<attr>.get(KEY[, default])` with KEY built from constants and
+    its own parameters (f-string, concatenation), or `return self.<another setting reader>(...)`.  Every `self._x(args)` / `self._x` in the
+    package is read as that lookup (parameters bound to the arguments, constant f-strings folded, `.get(K)` / `.get(K, None)` read as `[K]`),
+    so reading a configured value directly or through such an accessor is one program for the rules - and a reader that builds another key
+    than the one it is meant to read shows that key."""
+    import copy as _copy
+    defs = {}
+    counts = {}
+    for t in trees:
+        for c in ast.walk(t):
+            if isinstance(c, ast.ClassDef):
+                for b in c.body:
+                    if isinstance(b, (ast.FunctionDef, ast.AsyncFunctionDef)):
+                        counts[b.name] = counts.get(b.name, 0) + 1
+                        defs.setdefault(b.name, b)
+            elif isinstance(c, (ast.FunctionDef, ast.AsyncFunctionDef)):
+                counts.setdefault(c.name, 0)
+    # module-level homonyms
+    for t in trees:
+        for b in getattr(t, "body", []):
+            if isinstance(b, (ast.FunctionDef, ast.AsyncFunctionDef)):
+                counts[b.name] = counts.get(b.name, 0) + 1
+
+    def body_expr(fn):
+        body = [b for b in fn.body if not (isinstance(b, ast.Expr) and isinstance(b.value, ast.Constant))]
+        return body[0].value if len(body) == 1 and isinstance(body[0], ast.Return) and body[0].value is not None else None
+
+    def key_ok(k, params):
+        if isinstance(k, ast.Constant):
+            return True
+        if isinstance(k, ast.Name):
+            return k.id in params
+        if isinstance(k, ast.JoinedStr):
+            return all(isinstance(v, ast.Constant) or (isinstance(v, ast.FormattedValue) and v.format_spec is None and v.conversion == -1 and key_ok(v.value, params)) for v in k.values)
+        if isinstance(k, ast.BinOp) and isinstance(k.op, ast.Add):
+            return key_ok(k.left, params) and key_ok(k.right, params)
+        return False
+
+    def self_attr(e):
+        return isinstance(e, ast.Attribute) and isinstance(e.value, ast.Name) and e.value.id == "self"
+
+    def simple(e, params):
+        return isinstance(e, ast.Constant) or (isinstance(e, ast.Name) and e.id in params)
+    readers = {}
+    for _ in range(2):
+        for name, fn in defs.items():
+            if name in readers or counts.get(name, 0) != 1 or not (name.startswith("_") and not name.startswith("__")) or not isinstance(fn, ast.FunctionDef):
+                continue
+            decs = [ast.unparse(d) for d in fn.decorator_list]
+            if decs not in ([], ["property"]) or fn.args.vararg or fn.args.kwarg or fn.args.kwonlyargs or fn.args.posonlyargs or not fn.args.args or fn.args.args[0].arg != "self":
+                continue
+            e = body_expr(fn)
+            if e is None:
+                continue
+            params = [a.arg for a in fn.args.args][1:]
+            ok = False
+            if isinstance(e, ast.Subscript) and self_attr(e.value) and key_ok(e.slice, params):
+                ok = True
+            elif isinstance(e, ast.Call) and isinstance(e.func, ast.Attribute) and e.func.attr == "get" and self_attr(e.func.value) and not e.keywords and 1 <= len(e.args) <= 2 \
+                    and key_ok(e.args[0], params) and (len(e.args) == 1 or simple(e.args[1], params)):
+                ok = True
+            elif isinstance(e, ast.Call) and self_attr(e.func) and e.func.attr in readers and not e.keywords and all(simple(a, params) for a in e.args):
+                ok = True
+            if ok:
+                readers[name] = (fn, params, decs == ["property"])
+    if not readers:
+        return
+
+    def fold(e):
+        """constant f-strings / concatenations -> one constant; `.get(K)` / `.get(K, None)` -> `[K]`"""
+        class F(ast.NodeTransformer):
+            def visit_JoinedStr(self, n):
+                self.generic_visit(n)
+                parts = []
+                for v in n.values:
+                    if isinstance(v, ast.Constant):
+                        parts.append(str(v.value))
+                    elif isinstance(v, ast.FormattedValue) and isinstance(v.value, ast.Constant) and v.format_spec is None and v.conversion == -1:
+                        parts.append(str(v.value.value))
+                    else:
+                        return n
+                return ast.copy_location(ast.Constant("".join(parts)), n)
+
+            def visit_BinOp(self, n):
+                self.generic_visit(n)
+                if isinstance(n.op, ast.Add) and isinstance(n.left, ast.Constant) and isinstance(n.right, ast.Constant) and isinstance(n.left.value, str) and isinstance(n.right.value, str):
+                    return ast.copy_location(ast.Constant(n.left.value + n.right.value), n)
+                return n
+
+            def visit_Call(self, n):
+                self.generic_visit(n)
+                if isinstance(n.func, ast.Attribute) and n.func.attr == "get" and not n.keywords and n.args and isinstance(n.args[0], ast.Constant) \
+                        and (len(n.args) == 1 or (len(n.args) == 2 and isinstance(n.args[1], ast.Constant) and n.args[1].value is None)):
+                    return ast.copy_location(ast.Subscript(value=n.func.value, slice=n.args[0], ctx=ast.Load()), n)
+                return n
+        return F().visit(e)
+
+    def expand(node, depth=0):
+        """the lookup a `self._x(args)` / `self._x` node stands for, or None"""
+        if depth > 3:
+            return None
+        call = node if isinstance(node, ast.Call) else None
+        ref = call.func if call is not None else node
+        if not (self_attr(ref) and ref.attr in readers):
+            return None
+        fn, params, is_prop = readers[ref.attr]
+        if is_prop != (call is None):
+            return None
+        bound = {}
+        if call is not None:
+            if call.keywords and any(k.arg is None or k.arg not in params for k in call.keywords):
+                return None
+            for i, a in enumerate(call.args):
+                if isinstance(a, ast.Starred) or i >= len(params):
+                    return None
+                bound[params[i]] = a
+            for k in call.keywords:
+                bound[k.arg] = k.value
+            defaults = dict(zip(params[len(params) - len(fn.args.defaults):], fn.args.defaults))
+            for p_ in params:
+                if p_ not in bound:
+                    if p_ not in defaults:
+                        return None
+                    bound[p_] = defaults[p_]
+        e = _copy.deepcopy(body_expr(fn))
+
+        class S(ast.NodeTransformer):
+            def visit_Name(self, n):
+                return _copy.deepcopy(bound[n.id]) if n.id in bound else n
+        e = S().visit(e)
+        inner = expand(e, depth + 1)
+        if inner is not None:
+            e = inner
+        e = fold(e)
+        for x in ast.walk(e):
+            ast.copy_location(x, node)
+        return e
+
+    class R(ast.NodeTransformer):
+        def visit_Call(self, n):
+            self.generic_visit(n)
+            e = expand(n)
+            return e if e is not None else n
+
+        def visit_Attribute(self, n):
+            self.generic_visit(n)
+            if isinstance(n.ctx, ast.Load):
+                e = expand(n)
+                if e is not None:
+                    return e
+            return n
+
+        def visit_FunctionDef(self, n):
+            if n.name in readers and readers[n.name][0] is n:
+                return n  # the definition itself is kept as written
+            self.generic_visit(n)
+            return n
+    for t in trees:
+        R().visit(t)
+        ast.fix_missing_locations(t)
+
+
 def normalise_tree(tree: ast.AST) -> None:
     """Behaviour-preserving normal form applied to every module before any rule looks at it:
     `x = EXPR` immediately followed by `return x` (x a plain local) becomes `return EXPR` (keeps the position of EXPR's statement);
@@ -314,6 +478,7 @@ class Index:
         if not os.path.isdir(pkg_dir):
             raise AnalysisError("E0", f"package directory not found: {pkg_dir}")
         h = hashlib.sha256()
+        parsed = []
         for dp, dn, fn in sorted(os.walk(pkg_dir)):
             dn.sort()
             for f in sorted(fn):
@@ -333,10 +498,13 @@ class Index:
                         tree = ast.parse(src, p)
                 except SyntaxError as e:
                     raise AnalysisError("E0", f"{p} does not parse: {e}")
-                for cls_name, attrs in INLINE_WRITER_HELPERS.get(name, {}).items():
-                    _inline_private_writers(tree, cls_name, attrs)
-                normalise_tree(tree)
-                self.mods[name] = Module(name, p, os.path.relpath(p, self.repo), src, tree)
+                parsed.append((name, p, src, tree))
+        _inline_setting_readers([t for _, _, _, t in parsed])
+        for name, p, src, tree in parsed:
+            for cls_name, attrs in INLINE_WRITER_HELPERS.get(name, {}).items():
+                _inline_private_writers(tree, cls_name, attrs)
+            normalise_tree(tree)
+            self.mods[name] = Module(name, p, os.path.relpath(p, self.repo), src, tree)
         self.digest = h.hexdigest()[:16]
         Index._serial = getattr(Index, "_serial", 0) + 1
         self.serial = f"#{Index._serial}"  # caches keyed by it never mix objects of two Index instances
